@@ -187,8 +187,12 @@ static void h_op(void)
     esl_dmatrix_Destroy(S); esl_msa_Destroy(msa);
   }
   else if (!strcmp(op, "slink")) {
-    ESL_MSA *msa = build_msa(); int *c = NULL, *nin = NULL, nc = -1, st;
+    ESL_MSA *msa = build_msa(); int *c = NULL, *nin = NULL, nc = -1, st; int pre = (int) h_argi("pre", 0), i;
     if (!msa) { h_out("bad-op"); return; }
+    if (pre) {   /* caller-provided result arrays (the other documented calling convention) */
+      c = malloc(sizeof(int) * msa->nseq); nin = malloc(sizeof(int) * msa->nseq);
+      for (i = 0; i < msa->nseq; i++) { c[i] = -7; nin[i] = -7; }
+    }
     st = esl_msacluster_SingleLinkage(msa, h_argbits("maxid"), &c, &nin, &nc);
     if (st != eslOK) h_out("%s", h_status(st));
     else { o_reset(); o_add("ok nc=%d c=", nc); o_ilist(c, msa->nseq); o_add(" nin="); o_ilist(nin, nc); h_out("%s", ob); }
